@@ -21,6 +21,10 @@ class _Continue(Exception):
     pass
 
 
+class _Sl(list):
+    """positions that came from a slice (as opposed to an index list): slices combine as an outer product"""
+
+
 class FragReturn(Exception):
     def __init__(self, value):
         self.value = value
@@ -176,7 +180,9 @@ def run_fragment(body: Sequence[ast.stmt], names: Dict[str, Any], attrs: Optiona
             if isinstance(i, int) and not isinstance(i, bool):
                 return i
             if isinstance(i, BoolList):
-                raise Unfoldable("store through a mask inside a tuple index")
+                if any(isinstance(t_, list) for t_ in i):
+                    raise Unfoldable("store through a mask of rank above 1 inside a tuple index")
+                return [k_ for k_, m_ in enumerate(i) if m_]  # a 1-D mask along one axis selects these positions
             if isinstance(i, list) and all(isinstance(t_, int) and not isinstance(t_, bool) for t_ in i):
                 return list(i)
             raise Unfoldable("store index")
@@ -189,7 +195,7 @@ def run_fragment(body: Sequence[ast.stmt], names: Dict[str, Any], attrs: Optiona
                 length = len(base) if ax == 0 else (len(base[0]) if base and isinstance(base[0], list) else 0)
                 if not all(x is None or (isinstance(x, int) and not isinstance(x, bool)) for x in pr[1:]):
                     raise Unfoldable("slice bounds")
-                parts[ax] = list(range(length))[slice(pr[1], pr[2], pr[3])]
+                parts[ax] = _Sl(list(range(length))[slice(pr[1], pr[2], pr[3])])
         try:
             if len(parts) == 1:
                 if parts[0] == "all":
@@ -205,16 +211,34 @@ def run_fragment(body: Sequence[ast.stmt], names: Dict[str, Any], attrs: Optiona
                     base[parts[0]] = v
             elif len(parts) == 2:
                 r, c = parts
-                if isinstance(c, list):
-                    if isinstance(r, list) or r == "all":
-                        raise Unfoldable("store with row and column lists")
+                if isinstance(c, list) and (r == "all" or isinstance(r, list)):
+                    rows_ = list(range(len(base))) if r == "all" else list(r)
+                    if isinstance(r, list) and not isinstance(r, _Sl) and not isinstance(c, _Sl):
+                        # two index lists pair up element by element
+                        if len(rows_) != len(c):
+                            raise Unfoldable("paired index lists of different length")
+                        for k_, (rr_, cc_) in enumerate(zip(rows_, c)):
+                            base[rr_][cc_] = v[k_] if isinstance(v, list) else v
+                    else:
+                        vs_ = v
+                        if isinstance(v, list) and v and not isinstance(v[0], list):
+                            if len(v) != len(c):
+                                raise Unfoldable("store shape mismatch")
+                            vs_ = [v for _ in rows_]  # one row, broadcast over the selected rows
+                        if isinstance(vs_, list) and (len(vs_) != len(rows_) or any(not isinstance(x_, list) or len(x_) != len(c) for x_ in vs_)):
+                            raise Unfoldable("store shape mismatch")
+                        for k_, rr_ in enumerate(rows_):
+                            for j_, cc_ in enumerate(c):
+                                base[rr_][cc_] = vs_[k_][j_] if isinstance(vs_, list) else vs_
+                    c = None
+                elif isinstance(c, list):
                     for k_, cc in enumerate(c):
                         base[r][cc] = v[k_] if isinstance(v, list) else v
                     env_store = True
                     c = None
                 rows = [] if c is None else (list(range(len(base))) if r == "all" else (r if isinstance(r, list) else [r]))
                 multi = r == "all" or isinstance(r, list)
-                if multi and isinstance(v, list) and v and isinstance(v[0], list) and len(v) != len(rows):
+                if c is not None and multi and isinstance(v, list) and v and isinstance(v[0], list) and len(v) != len(rows):
                     raise Unfoldable("store shape mismatch")
                 for k, row in enumerate(rows):
                     val = v[k] if (multi and isinstance(v, list) and (c != "all" or (v and isinstance(v[0], list)))) else v
